@@ -132,11 +132,23 @@ func TestSim(t *testing.T) {
 		rep := runOne(t, prop, s, keep)
 		if rep.Violation != nil {
 			rep.Summary = s.Summary()
-			// attach the scenario for the driver (replay / minimisation)
+			min := s
+			nrep := 0
+			if os.Getenv("SIM_NOMIN") != "1" {
+				min, nrep = Minimise(t, s, rep.Violation.Class, pd.chk, 300)
+			}
+			mrep := runOne(t, prop, min, true)
+			if mrep.Violation == nil || mrep.Violation.Class != rep.Violation.Class {
+				min, mrep = s, rep
+			}
+			min.Expect = mrep.Violation.Class
 			b, _ := json.Marshal(struct {
 				*RunReport
-				Scenario *Scenario `json:"scenario"`
-			}{rep, s})
+				Scenario   *Scenario `json:"scenario"`
+				Features   []string  `json:"features"`
+				MinReplays int       `json:"min_replays"`
+				OrigSteps  int       `json:"orig_steps"`
+			}{mrep, min, Features(min, mrep.Violation), nrep, rep.Steps})
 			w.Write(b)
 			w.WriteByte('\n')
 			w.Flush()
